@@ -64,10 +64,14 @@ Section Prim.
     p_read_dir P (abs_path cs) =
       if check_permission m OpenRead u then (map dent_of (dir_infos h ch), None) else ([], Some EPermDenied).
   Proof.
-    intros Hg Hlen Hres Hnd. cbn [P mem_prims p_read_dir]. unfold mem_read_dir, read_dir.
+    intros Hg Hlen Hres Hnd. cbn [P mem_prims p_read_dir]. unfold mem_read_dir, vfs_read_dir, mem_file_read_dir, read_dir.
     rewrite (mem_open_dir_resolved Hg Hlen Hres Hnd). fold u.
     destruct (check_permission m OpenRead u); [|reflexivity].
-    unfold f_read_dir. cbn [new_handle hd_name hd_node]. cbn [abs_path]. fold h. rewrite Hnd. reflexivity.
+    unfold f_read_dir. cbn [new_handle hd_name hd_node]. cbn [abs_path]. fold h. rewrite Hnd.
+    change ((-1 <=? 0)%Z) with true. cbn [orb andb snd]. cbv iota beta.
+    (* the sort of vfs.ReadDir after MemFile.ReadDir(-1), which is sorted already *)
+    rewrite sort_by_map. rewrite (@sort_by_ext _ (fun a => de_name (dent_of a)) (@fi_name)) by reflexivity.
+    rewrite dir_infos_resort. reflexivity.
   Qed.
 
   Lemma mem_dir_names_resolved (cs : list str) (c : nat) (ch : list (str * nat)) (m : meta) :
@@ -84,34 +88,11 @@ Section Prim.
     Forall good_comp cs -> length cs < SEARCH_FUEL -> blocked s v cs ->
     p_read_dir P (abs_path cs) = ([], Some EPermDenied).
   Proof.
-    intros Hg Hlen Hb. cbn [P mem_prims p_read_dir]. unfold mem_read_dir, read_dir, open_file.
+    intros Hg Hlen Hb. cbn [P mem_prims p_read_dir]. unfold mem_read_dir, vfs_read_dir, mem_file_read_dir, read_dir, open_file.
     rewrite to_open_mode_0. change (has OpenRead OpenCreateExcl) with false. cbv iota. cbv zeta.
     rewrite (@search_blocked s v Hos cs SlEval Hg Hlen Hb). reflexivity.
   Qed.
 End Prim.
-
-(* ---- sorting commutes with a key-preserving map ------------------------------------------ *)
-Lemma insert_sorted_map (A B : Type) (key : B -> str) (f : A -> B) (x : A) (l : list A) :
-  insert_sorted key (f x) (map f l) = map f (insert_sorted (fun a => key (f a)) x l).
-Proof.
-  induction l as [|y l IH]; [reflexivity|]. cbn [map insert_sorted].
-  destruct (str_ltb (key (f y)) (key (f x))); [rewrite IH|]; reflexivity.
-Qed.
-
-Lemma sort_by_map (A B : Type) (key : B -> str) (f : A -> B) (l : list A) :
-  sort_by key (map f l) = map f (sort_by (fun a => key (f a)) l).
-Proof.
-  induction l as [|x l IH]; [reflexivity|]. unfold sort_by in *. cbn [map fold_right].
-  rewrite IH. apply insert_sorted_map.
-Qed.
-
-Lemma sort_by_ext (A : Type) (k1 k2 : A -> str) (l : list A) :
-  (forall a, k1 a = k2 a) -> sort_by k1 l = sort_by k2 l.
-Proof.
-  intros E. unfold sort_by. induction l as [|x l IH]; [reflexivity|]. cbn [fold_right]. rewrite IH.
-  generalize (fold_right (insert_sorted k2) [] l). intros l0.
-  induction l0 as [|y l0 IH0]; [reflexivity|]. cbn [insert_sorted]. rewrite !E, IH0. reflexivity.
-Qed.
 
 Lemma alookup_nodup (ch : list (str * nat)) (n : str) (c : nat) :
   NoDup (map fst ch) -> In (n, c) ch -> alookup str_eqb n ch = Some c.
